@@ -203,6 +203,45 @@ impl RefState {
     }
 
     /// The textbook batch rule of C02.  Returns the new state or the first stated condition that fails.
+    /// Transactions of the batch that are not balanced in the strict sense of the statement although every denomination they
+    /// *name* balances: their inputs carry a denomination (in a positive amount) that none of their outputs names, so that
+    /// amount simply disappears ("burnt by omission").  The code accepts these - its balance check walks the outputs only -
+    /// while it refuses an explicit smaller output of the same denomination; the model applies them too and the engine
+    /// reports each as the known finding AK.  Returns (index in the batch, denomination).
+    pub fn burns_by_omission(&self, txs: &[Transaction]) -> Vec<(usize, Denom)> {
+        let mut created: BTreeMap<CoinID, (Denom, u128)> = BTreeMap::new();
+        for tx in txs {
+            let h = tx.hash_nosigs();
+            for (i, o) in tx.outputs.iter().enumerate().take(255) {
+                let d = if o.denom == Denom::NewCustom { Denom::Custom(h) } else { o.denom };
+                created.insert(tx.output_coinid(i as u8), (d, o.value.0));
+            }
+        }
+        let mut out = vec![];
+        for (ti, tx) in txs.iter().enumerate() {
+            if tx.kind == TxKind::Faucet {
+                continue;
+            }
+            let mut ins: BTreeMap<Denom, u128> = BTreeMap::new();
+            for i in &tx.inputs {
+                let dv = self.coins.get(i).map(|c| (c.coin_data.denom, c.coin_data.value.0)).or_else(|| created.get(i).copied());
+                if let Some((d, v)) = dv {
+                    *ins.entry(d).or_default() = ins.get(&d).copied().unwrap_or(0).saturating_add(v);
+                }
+            }
+            for (d, v) in ins {
+                // MEL is always named (the fee); ERG created or spent by a mint has rules of its own
+                if v == 0 || d == Denom::Mel || (tx.kind == TxKind::DoscMint && d == Denom::Erg) {
+                    continue;
+                }
+                if !tx.outputs.iter().any(|o| o.denom == d) {
+                    out.push((ti, d));
+                }
+            }
+        }
+        out
+    }
+
     pub fn apply_batch(&self, txs: &[Transaction], ctx: &BatchCtx) -> Result<RefState, Reject> {
         let rules = self.rules();
         // every transaction individually well-formed
